@@ -2,6 +2,8 @@
 //! C14 writer part).
 //! Case: `writer s=<sink schedule> o=<ops>`
 //!   schedule tokens: a<n> accept ≤ n, i Interrupted, z Ok(0), f terminal error, p panic
+//!   (the sink also implements `write_vectored` with the same semantics over all slices offered;
+//!   the call is logged like a `write` of their total length)
 //!   ops: w<len>.<seed>  write_all(len bytes) | W<len>.<seed> write() | d<ty>:<value> ascii_digits
 //!        p<len>.<blen>.<seed> buf_write_ptr(len) + blen bytes + advance_unchecked(blen)
 //!        fl flush | fd flush_defer_err | ck check_io_error | dr drop
@@ -38,46 +40,71 @@ pub struct SinkState {
 #[derive(Clone)]
 pub struct Sink(pub Rc<RefCell<SinkState>>);
 
-impl Write for Sink {
-    fn write(&mut self, buf: &[u8]) -> io::Result<usize> {
+impl Sink {
+    /// One call of the sink, plain or vectored: `bufs` are the slices offered, the schedule event
+    /// applies to their concatenation (at most `n` bytes are taken across the slices, in order).
+    /// The call is logged like a `write` of the total offered length.
+    fn offer(&mut self, bufs: &[&[u8]]) -> io::Result<usize> {
         let mut s = self.0.borrow_mut();
+        let total: usize = bufs.iter().map(|b| b.len()).sum();
         let ev = s.sched.pop_front();
+        let take = |s: &mut SinkState, mut k: usize| {
+            for b in bufs {
+                let j = k.min(b.len());
+                s.sunk.extend_from_slice(&b[..j]);
+                k -= j;
+            }
+        };
         match ev {
             None => {
-                s.sunk.extend_from_slice(buf);
-                s.log.push((buf.len(), buf.len()));
-                Ok(buf.len())
+                take(&mut s, total);
+                s.log.push((total, total));
+                Ok(total)
             }
             Some(WEv::Accept(n)) => {
-                let k = n.max(1).min(buf.len());
-                s.sunk.extend_from_slice(&buf[..k]);
-                s.log.push((buf.len(), k));
+                let k = n.max(1).min(total);
+                take(&mut s, k);
+                s.log.push((total, k));
                 Ok(k)
             }
             Some(WEv::Intr) => {
-                s.log.push((buf.len(), 1000001));
+                s.log.push((total, 1000001));
                 Err(io::Error::new(io::ErrorKind::Interrupted, "intr"))
             }
             Some(WEv::Zero) => {
-                s.log.push((buf.len(), 0));
-                if s.failed_at.is_none() && !buf.is_empty() {
+                s.log.push((total, 0));
+                if s.failed_at.is_none() && total != 0 {
                     s.failed_at = Some(s.log.len());
                 }
                 Ok(0)
             }
             Some(WEv::Fail) => {
-                s.log.push((buf.len(), 1000002));
+                s.log.push((total, 1000002));
                 if s.failed_at.is_none() {
                     s.failed_at = Some(s.log.len());
                 }
                 Err(io::Error::new(io::ErrorKind::Other, "fail"))
             }
             Some(WEv::Panic) => {
-                s.log.push((buf.len(), 1000003));
+                s.log.push((total, 1000003));
                 drop(s);
                 panic!("sink panic");
             }
         }
+    }
+}
+
+impl Write for Sink {
+    fn write(&mut self, buf: &[u8]) -> io::Result<usize> {
+        self.offer(&[buf])
+    }
+    /// A sink with native vectored output (a file, a socket): the same schedule semantics as
+    /// `write`, over all the slices.  The writer under test does not have to use it; if it does,
+    /// its accounting of short counts that end inside one slice or cross into the next is
+    /// exercised by the same schedules, and C11's oracle (sink content = bytes written) judges.
+    fn write_vectored(&mut self, bufs: &[io::IoSlice<'_>]) -> io::Result<usize> {
+        let v: Vec<&[u8]> = bufs.iter().map(|b| &**b).collect();
+        self.offer(&v)
     }
     fn flush(&mut self) -> io::Result<()> {
         Ok(())
@@ -446,6 +473,8 @@ pub fn gen_case(rng: &mut Rng, thorough: bool) -> String {
     let mut est = 0usize;
     let n_ops = rng.range(1, if thorough { 40 } else { 18 });
     let mut ops = vec![];
+    // (bytes pending in the buffer, length written) of the writes that have to go to the sink
+    let mut cold: Vec<(usize, usize)> = vec![];
     for _ in 0..n_ops {
         let room = CAP - est.min(CAP);
         let op = match rng.below(16) {
@@ -460,6 +489,9 @@ pub fn gen_case(rng: &mut Rng, thorough: bool) -> String {
                     6 => if thorough { 3 * CAP } else { CAP + rng.range(2, 300) as usize },
                     _ => rng.range(0, 6000) as usize,
                 };
+                if est + len > CAP {
+                    cold.push((est, len));
+                }
                 if est + len <= CAP { est += len } else if len < CAP { est = (est + len) % CAP } else { est = 0 };
                 format!("{}{}.{}", if rng.chance(1, 4) { "W" } else { "w" }, len, rng.below(200))
             }
@@ -494,6 +526,39 @@ pub fn gen_case(rng: &mut Rng, thorough: bool) -> String {
     // would be a double panic)
     if rng.chance(1, 3) && ops.last().map(|o| o == "dr").unwrap_or(false) && !sched.iter().any(|e| e == "p") {
         *ops.last_mut().unwrap() = "udrop".into();
+    }
+    // (also drawn last) a benign schedule whose short counts are RELATIVE to what the writer holds
+    // when it has to call the sink: a first count that ends inside the pending bytes, then one that
+    // ends just before / at / just behind their end or crosses into the bytes of the write itself
+    // (successive short counts are where the accounting of a partly written buffer goes wrong)
+    if !cold.is_empty() && rng.chance(1, 4) {
+        sched.clear();
+        for &(pend, len) in cold.iter().take(4) {
+            // what the sink is offered first: the pending bytes (topped up to CAP by a short write)
+            let first = if len < CAP { CAP } else { pend };
+            let mut left = first;
+            for _ in 0..rng.range(1, 3) {
+                if rng.chance(1, 6) {
+                    sched.push("i".into());
+                }
+                let a = match rng.below(8) {
+                    0 => rng.range(1, 7) as usize,
+                    1 => left / 2,
+                    2 => left.saturating_sub(1),
+                    3 => left,
+                    4 => left + 1,
+                    5 => left + rng.range(1, 40) as usize,
+                    6 => left + len / 2,
+                    _ => rng.range(1, (left + len) as u64 + 1) as usize,
+                }
+                .max(1);
+                sched.push(format!("a{}", a));
+                left = left.saturating_sub(a);
+                if left == 0 {
+                    left = len;
+                }
+            }
+        }
     }
     format!(
         "writer s={} o={}",
